@@ -164,6 +164,7 @@ type runtimeEnv struct {
 	realStop context.CancelFunc
 	runStore *flyt.SharedStore
 	stores   []*flyt.SharedStore
+	onRunner func() // called on the goroutine that is about to call flyt.Run
 }
 
 func (e *runtimeEnv) record(s string) {
@@ -885,6 +886,9 @@ func (e *runtimeEnv) runOnce(root int) RunObs {
 	}
 	ch := make(chan res, 1)
 	go func() {
+		if e.onRunner != nil {
+			e.onRunner()
+		}
 		a, err := flyt.Run(e.context(), e.nodes[root], e.runStore)
 		ch <- res{a, err}
 	}()
